@@ -22,12 +22,30 @@ ASSUMPTIONS = [
     'values are hashable except in the explicit unhashable-value attempts (TypeError, nothing changed)',
 ]
 
-POOL = [0, 1, 2, 'a', 'b', (1,)]
+POOL = [0, 1, 1000, 'a', 'b', (1,), 'long-key']
 NP = len(POOL)
 
 
 def P(i):
-    return POOL[i % NP]
+    """the i-th pool value; where CPython does not share equal objects anyway (ints > 256, tuples, strings built at run time)
+    every call returns a *fresh* object that is equal but not identical to earlier ones"""
+    v = POOL[i % NP]
+    if isinstance(v, int) and v > 256:
+        return int(str(v))
+    if isinstance(v, tuple):
+        return tuple(list(v))
+    if isinstance(v, str) and len(v) > 1:
+        return ''.join(list(v))
+    return v
+
+
+class Token:
+    """a value with identity-based equality and hash (like most plain class instances); picklable"""
+    def __init__(self, n):
+        self.n = n
+
+    def __repr__(self):
+        return 'Token(%d)' % self.n
 
 
 def _call(f, *a, **kw):
@@ -520,7 +538,8 @@ def run_m2m(case):
 # ---------------------------------------------------------------------------
 # FrozenDict
 
-_fval = st.one_of(_i.map(lambda i: ['h', i]), st.sampled_from([['list', 0], ['dict', 0], ['set', 0], ['nested', 0]]))
+_fval = st.one_of(_i.map(lambda i: ['h', i]), st.sampled_from([['list', 0], ['dict', 0], ['set', 0], ['nested', 0]]),
+                  st.sampled_from([['token', 0], ['token', 1]]))
 
 
 def strat_frozen(tier):
@@ -536,6 +555,8 @@ def _fv(spec):
     kind, i = spec
     if kind == 'h':
         return P(i)
+    if kind == 'token':
+        return Token(i)
     return {'list': [1, 2], 'dict': {'x': 1}, 'set': {1}, 'nested': (1, [2])}[kind]
 
 
@@ -611,8 +632,26 @@ def run_frozen(case):
             ('copy.deepcopy', lambda: copy.deepcopy(fd), snapshot),
             ('pickle2', lambda: pickle.loads(pickle.dumps(fd, 2)), snapshot),
             ('pickle5', lambda: pickle.loads(pickle.dumps(fd, 5)), snapshot)]
+    has_token = any(isinstance(v, Token) for v in snapshot.values())
+    if has_token:
+        out.label('identity_hashed_values')
     for name, f, exp in news:
         r = _call(f)
+        if has_token and name in ('copy.deepcopy', 'pickle2', 'pickle5'):
+            # the copies hold new Token objects (identity equality): compare structure, then self-consistency of the copy
+            if r[0] != 'ok' or type(r[1]) is not FrozenDict or list(r[1]) != list(snapshot) or \
+                    [repr(v) for v in r[1].values()] != [repr(v) for v in snapshot.values()]:
+                return out.fail('c17.frozen.' + name.split('(')[0], '%s of %r -> %r' % (name, fd, r))
+            twin = FrozenDict(dict(r[1]))
+            if not (twin == r[1]):
+                return out.fail('c17.frozen.eq', '%s result %r != FrozenDict(dict(result))' % (name, r[1]))
+            if hashable:
+                ha, hb = _call(hash, r[1]), _call(hash, twin)
+                if ha[0] != 'ok' or ha != hb:
+                    return out.fail('c17.frozen.hash', 'x = %s of %r: hash(x) = %r but the equal FrozenDict(dict(x)) hashes to %r' % (name, fd, ha, hb))
+                if _call(lambda: {twin: 1}[r[1]]) != ('ok', 1):
+                    return out.fail('c17.frozen.as-key', '%s result cannot be found under an equal key' % name)
+            continue
         if r[0] != 'ok' or type(r[1]) is not FrozenDict or dict(r[1]) != exp:
             return out.fail('c17.frozen.' + name.split('(')[0], '%s of %r -> %r, expected FrozenDict(%r)' % (name, fd, r, exp))
         if dict(fd) != snapshot:
